@@ -54,7 +54,7 @@ impl Opt {
 fn main() {
     let mut run = Run::new();
     let thorough = run.args.thorough();
-    let n = if thorough { 24000 } else { 2400 };
+    let n = if thorough { 24000 } else { 6000 };
     let dir = std::path::PathBuf::from(&run.args.scratch);
     for idx in 0..n {
         if !run.want(idx) {
